@@ -3327,6 +3327,11 @@ impl BytecodeVM {
                 Ok(OpResult::Continue)
             }
 
+            Op::DiscardCompletion => {
+                self.pending_completion = None;
+                Ok(OpResult::Continue)
+            }
+
             Op::FinallyEnd => {
                 // Complete any pending return/throw/break/continue after finally block finishes
                 if let Some(pending) = self.pending_completion.take() {
